@@ -808,6 +808,64 @@ func TestReentrant(t *testing.T) {
 	vp.Run(t, reentrantProp)
 }
 
+// LevelVarCase: the handler is configured with a *slog.LevelVar that is moved
+// after construction and between derivations.  Which of the two readings of
+// "the configured level" applies (the value when the handler was built, or the
+// variable's current value) is left open; but one tree has ONE configured
+// level: all its handlers must give the same answer, under one of the two
+// readings, for every level.
+type LevelVarCase struct {
+	Levels []int `json:"levels"` // the variable's successive values: at construction, after 1st derivation, ...
+}
+
+func checkLevelVar(c LevelVarCase) error {
+	lv := &slog.LevelVar{}
+	lv.Set(slog.Level(c.Levels[0]))
+	root := slogutil.NewJSONHybridHandler(&bytes.Buffer{}, &slog.HandlerOptions{Level: lv})
+	hs := []slog.Handler{root}
+	for i, l := range c.Levels[1:] {
+		parent := hs[i%len(hs)]
+		hs = append(hs, parent.WithAttrs([]slog.Attr{slog.Int("n", i)}))
+		lv.Set(slog.Level(l))
+	}
+	atBuild, current := slog.Level(c.Levels[0]), lv.Level()
+	okBuild, okCurrent := true, true
+	for _, l := range []slog.Level{-100, -9, -8, -5, -4, -1, 0, 1, 3, 4, 5, 7, 8, 9, 12, 100} {
+		first := hs[0].Enabled(context.Background(), l)
+		for i, h := range hs[1:] {
+			if got := h.Enabled(context.Background(), l); got != first {
+				return fmt.Errorf("one handler tree, LevelVar moved through %v: Enabled(%d) is %v on the root and %v on derived handler #%d", c.Levels, l, first, got, i+1)
+			}
+		}
+		okBuild = okBuild && first == (l >= atBuild)
+		okCurrent = okCurrent && first == (l >= current)
+	}
+	if !okBuild && !okCurrent {
+		return fmt.Errorf("LevelVar moved through %v: Enabled follows neither the level at construction (%d) nor the current level (%d)", c.Levels, atBuild, current)
+	}
+	vp.Class("levelvar")
+	if atBuild != current {
+		vp.NonTrivialStr("c19.levelvar", fmt.Sprint(c))
+		vp.Sample("levelvar", c)
+	}
+	return nil
+}
+
+var levelVarProp = vp.Register(vp.Prop[LevelVarCase]{
+	Kind: "c19.levelvar", Base: 1500,
+	Gen: func(t *rapid.T) LevelVarCase {
+		return LevelVarCase{Levels: rapid.SliceOfN(rapid.SampledFrom([]int{-8, -4, 0, 4, 8, 2, -100, 12}), 2, 6).Draw(t, "levels")}
+	},
+	Check: checkLevelVar,
+})
+
+func TestLevelVar(t *testing.T) {
+	if os.Getenv("VP_VARIANT") == "conc" {
+		t.Skip("runs in the seq variant")
+	}
+	vp.Run(t, levelVarProp)
+}
+
 // TestRegression is the record shape that exposed the missing Clone: a record
 // built by several AddAttrs calls handed to two handlers with attributes.
 func TestRegression(t *testing.T) {
